@@ -382,10 +382,10 @@ impl FootprintGuard {
                 !footprint.e_write.iter().any(|k| k.warp_id != warp_id),
                 "FootprintGuard::new: rule '{rule_name}' has cross-warp entries in e_write (expected warp {warp_id:?})"
             );
-            assert!(
-                !footprint.a_read.iter().any(|k| k.owner.warp_id() != warp_id),
-                "FootprintGuard::new: rule '{rule_name}' has cross-warp entries in a_read (expected warp {warp_id:?})"
-            );
+            // `a_read` is exempt: Stage B1 requires every rewrite inside a descended instance to
+            // READ the attachment slots of its descent chain, and those slots live in ancestor
+            // instances (`Engine::apply_in_warp` adds them itself). They are filtered out below
+            // because `GraphView` can only read the guard's own instance.
             assert!(
                 !footprint.a_write.iter().any(|k| k.owner.warp_id() != warp_id),
                 "FootprintGuard::new: rule '{rule_name}' has cross-warp entries in a_write (expected warp {warp_id:?})"
